@@ -347,6 +347,7 @@ class Projector:
             "tel": {"use": int(tel.telescope_use), "flag": bool(tel.telescope_status)},
             "sch": {"queue": [o.name for o in sch.observation_queue],
                     "prov": int(sch.provision_ingest),
+                    "pend": int(getattr(sch, "pending_ingest", 0)),
                     "status": sch.schedule_status.name,
                     "doff": ts(sch.delay_offset)},
             "buf": {
